@@ -29,6 +29,9 @@ IDS = [0, 1, 2, 0x7FFF, 0x8000, 0xFFFE, 0xFFFF]
 N = {'quick': 3000, 'thorough': 400000}
 
 
+OPTIMIZED_SAMPLE = 1     # the first shard once more under python -O (vf/runner.py)
+
+
 def exhaustive(tier):
     return False
 
